@@ -199,7 +199,8 @@ def _wrap_layer_rule_assert():
         trace_of(self).append(entry)
         try:
             cfg = snapshot_layer_rule(self)
-        except Exception:  # noqa: BLE001
+        except Exception as e:  # noqa: BLE001
+            HUB.acc.mark_inconclusive(f"LayerRule monitor cannot read the rule state: {type(e).__name__}: {e}")
             cfg = None
         before = graph_state(evaluable)
         exc = None
@@ -380,9 +381,13 @@ def _wrap_diagram_rule():
     def assert_applies(self, evaluable):
         if not HUB.active:
             return orig(self, evaluable)
+        try:
+            cfg = snapshot_diagram_rule(self)
+        except Exception as e:  # noqa: BLE001
+            HUB.acc.mark_inconclusive(f"DiagramRule monitor cannot read the rule state: {type(e).__name__}: {e}")
+            return orig(self, evaluable)
         entry = ["assert_applies", [], None]
         trace_of(self).append(entry)
-        cfg = snapshot_diagram_rule(self)
         before = graph_state(evaluable)
         exc = None
         try:
